@@ -473,6 +473,7 @@ class Executor:
         self.feas_solver.set('timeout', feas_timeout_ms)
         self.skip_inits = set()
         self.defer_stack = []
+        self.defer_bases = []
         self.trace = False
         self.objtype = {}
         self.deadline = None
@@ -759,6 +760,16 @@ class Executor:
         returns = []
         iters = {}
         defer_base = len(self.defer_stack)
+        self.defer_bases.append(defer_base)
+        try:
+            return self.run_blocks(fn, blocks, pending, defer_base)
+        finally:
+            self.defer_bases.pop()
+            del self.defer_stack[defer_base:]
+
+    def run_blocks(self, fn, blocks, pending, defer_base):
+        returns = []
+        iters = {}
         while pending:
             if self.deadline is not None and time.time() > self.deadline:
                 raise Inconclusive('interpretation time budget exceeded in ' + fn.name)
@@ -854,7 +865,6 @@ class Executor:
                     alive = False
                     break
         # merge returns
-        del self.defer_stack[defer_base:]
         returns = [(s, v) for s, v in returns if not s.dead()]
         if not returns:
             return None, None
@@ -1466,7 +1476,7 @@ class Executor:
         # a channel is a bounded log: ('chan', count as 8-bit BV, slots); sends append, receives pop the oldest entry
         t = self.p.T(ins['type'])
         z = self.zero(t['elem']) if 'elem' in t else 0
-        oid = self.new_obj(st, ('chan', z3.BitVecVal(0, 8), (z,) * self.CHAN_CAP), None)
+        oid = self.new_obj(st, ('chan', z3.BitVecVal(0, 8), (z,) * self.CHAN_CAP, False), None)
         env[ins['name']] = Chan(oid)
         return st
 
@@ -1482,25 +1492,39 @@ class Executor:
             raise Unsupported('send on nil channel (blocks forever)')
         if isinstance(ch, Union):
             raise Unsupported('send on a guarded union of channels')
-        kind, n, slots = st.heap[ch.obj]
+        kind, n, slots, closed = st.heap[ch.obj]
+        if closed is not False:
+            self.oblige(st, 'panic', 'send on closed channel', ins.get('pos'), bnot(closed))
         full = simp(n == z3.BitVecVal(self.CHAN_CAP, 8))
         if full is True:
             raise Inconclusive('channel log capacity %d exceeded' % self.CHAN_CAP)
         if full is not False:
             self.oblige(st, 'panic', 'channel log capacity exceeded (send would block)', ins.get('pos'), bnot(full))
         new = tuple(merge_val(simp(n == z3.BitVecVal(j, 8)), x, slots[j]) for j in range(self.CHAN_CAP))
-        st.heap[ch.obj] = (kind, z3.simplify(n + 1), new)
+        st.heap[ch.obj] = (kind, z3.simplify(n + 1), new, closed)
         return st
 
     def chan_recv(self, st, ch, pos):
         if ch is None or isinstance(ch, Union):
             raise Unsupported('receive on nil/union channel')
-        kind, n, slots = st.heap[ch.obj]
+        kind, n, slots, closed = st.heap[ch.obj]
         empty = simp(n == z3.BitVecVal(0, 8))
-        self.oblige(st, 'panic', 'receive on empty channel (would block)', pos, bnot(empty))
+        self.oblige(st, 'panic', 'receive on empty channel (would block)', pos, bor(bnot(empty), closed))
         v = slots[0]
-        st.heap[ch.obj] = (kind, z3.simplify(n - 1), slots[1:] + (slots[-1],))
+        st.heap[ch.obj] = (kind, z3.simplify(z3.If(tobool(empty), n, n - 1)), slots[1:] + (slots[-1],), closed)
         return v
+
+    def chan_ready(self, st, ch):
+        """can a receive on ch proceed without blocking? bool or BoolRef"""
+        if ch is None:
+            return False
+        if isinstance(ch, Union):
+            r = False
+            for g, alt in ch.alts:
+                r = bor(r, band(g, self.chan_ready(st, alt)))
+            return r
+        kind, n, slots, closed = st.heap[ch.obj]
+        return bor(closed, bnot(simp(n == z3.BitVecVal(0, 8))))
 
     def op_Extract(self, fn, ins, env, st):
         x = self.operand(ins['x'], env)
@@ -1517,9 +1541,10 @@ class Executor:
         return st
 
     def op_RunDefers(self, fn, ins, env, st):
-        # NOTE: defers are tracked per executor (no defers across merged paths with different stacks in checked code)
-        while self.defer_stack:
-            fv, args = self.defer_stack.pop()
+        # the defers registered by this function frame run in reverse order on every return path (the frame's list is
+        # dropped when the function exits); defers registered under a symbolic branch are not supported
+        base = self.defer_bases[-1] if self.defer_bases else 0
+        for fv, args in reversed(self.defer_stack[base:]):
             _, st = self.call_value(fv, args, st, ins.get('pos'))
             if st is None:
                 return None
@@ -1610,6 +1635,11 @@ class Executor:
         if name in ('print', 'println'):
             return None, st
         if name == 'close':
+            ch = args[0]
+            if ch is None or isinstance(ch, Union):
+                raise Unsupported('close of nil/union channel')
+            kind, n, slots, closed = st.heap[ch.obj]
+            st.heap[ch.obj] = (kind, n, slots, True)
             return None, st
         raise Unsupported('builtin ' + name)
 
@@ -1728,10 +1758,22 @@ class Executor:
         return SliceV(Ptr(oid, ()), 0, n, n)
 
     def op_Select(self, fn, ins, env, st):
-        h = self.intrinsics.get('select')
-        if h is None:
-            raise Unsupported('select')
-        return h(self, fn, ins, env, st)
+        # supported: non-blocking select (with default) over receive cases; the first ready case in source order is taken
+        # (Go picks uniformly among ready cases: with more than one receive case this would need a nondeterministic choice)
+        states = ins['states']
+        if ins.get('blocking') or any(s['dir'] != 2 for s in states) or len(states) != 1:
+            raise Unsupported('select other than non-blocking single receive')
+        ch = self.operand(states[0]['chan'], env)
+        ready = self.chan_ready(st, ch)
+        t = self.p.T(ins['type'])
+        elems = t['elems']
+        if isinstance(ready, bool):
+            idx = 0 if ready else (MAXU - 1)
+        else:
+            idx = z3.If(ready, z3.BitVecVal(0, 64), z3.BitVecVal(MAXU - 1, 64))
+        out = [idx, False] + [self.zero(e) for e in elems[2:]]
+        env[ins['name']] = tuple(out)
+        return st
 
     def op_Lookup(self, fn, ins, env, st):
         raise Unsupported('map/string lookup')
